@@ -24,13 +24,40 @@ def polygon(rng, m):
     return np.c_[r * np.cos(ang), r * np.sin(ang)]
 
 
+def flat_cloud(rv, npts, d):
+    """npts points of affine rank r < d in d dimensions: an exact (dyadic) affine image of an r-dimensional cloud, or an
+    r-dimensional cloud rotated out of the coordinate flat (flat up to rounding)"""
+    r = int(rv.integers(1, d))
+    kind = str(rv.choice(["affine", "rotated"]))
+    if kind == "affine":
+        X = dyadic(rv, -2, 2, 2, size=(npts, r)) @ dyadic(rv, -2, 2, 2, size=(r, d)) + dyadic(rv, -4, 4, 2, size=d)
+    else:
+        Z = np.zeros((npts, d)); Z[:, :r] = dyadic(rv, -4, 4, 3, size=(npts, r))
+        X = Z @ rot_cayley(rv, d).T + dyadic(rv, -4, 4, 2, size=d)
+    return X, "%s:rank%d-in-%d" % (kind, r, d)
+
+
+def chroma_rank(X):
+    C = X / X.sum(1, keepdims=True)
+    return int(np.linalg.matrix_rank(C - C[0], tol=1e-9))
+
+
+def planar_mean_width_factor(d):
+    """mean width of a planar convex body embedded in R^d = perimeter/pi * E|projection of a uniform unit vector onto a
+    2-plane| = perimeter/pi * Gamma(3/2) Gamma(d/2) / Gamma((d+1)/2)   (d=2: perimeter/pi, d=3: perimeter/4)"""
+    return math.gamma(1.5) * math.gamma(d / 2) / math.gamma((d + 1) / 2) / math.pi
+
+
 def run(R):
     import dreye
     n = 50 if R.tier == "quick" else 600
-    R.rule = ("point clouds in 1-5 dimensions (random dyadic, large >300 points, flat/rank-deficient, boxes, simplices, polygons), "
+    R.rule = ("point clouds in 1-5 dimensions (random dyadic, large >300 points, flat/rank-deficient of every affine rank below the "
+              "dimension - exact affine images and rotated flats, with more points than a simplex -, boxes, simplices, polygons also "
+              "embedded in 3-4 dimensions with interior points; gamut clouds from fewer sources than receptors incl. faces of the "
+              "simplex, estimator systems with fewer sources than receptors), "
               "rigid motions (Cayley rotations), positive scalings, added points, seeds; non-negative vector pairs incl. zeros and "
               "unequal totals for the divergence. Mean width is compared with the Float run of the model on the SAME direction "
-              "sample (regenerated from the seed), and with perimeter/pi on polygons; volume with closed forms; gamut ratios with "
+              "sample (regenerated from the seed), and with the closed form perimeter/pi * Gamma(3/2)Gamma(d/2)/Gamma((d+1)/2) on planar polygons in d dimensions; volume with closed forms; gamut ratios with "
               "their stated invariances; divergence with the Float model and the proved bounds. Non-trivial: dimension >= 2 with "
               ">= 4 distinct points, or a divergence pair with unequal totals.")
     jobs = []
@@ -44,12 +71,17 @@ def run(R):
         if what == "width":
             d = int(rng.integers(1, 6)); big = bool(rng.integers(4) == 0)
             npts = int(rng.integers(300, 500)) if big else int(rng.integers(2, 15))
-            X = dyadic(rng, -4, 4, 3, size=(npts, d))
+            X = dyadic(rng, -4, 4, 3, size=(npts, d)); flat = None
             if rng.integers(4) == 0 and d >= 2:
                 X[:, -1] = X[:, 0] * 0.5      # flat cloud
+                flat = "hyperplane"
+            rv = R.rng(5, k)
+            if d >= 2 and rv.integers(3) == 0:    # flat clouds of every affine rank below d (incl. more than d+1 points)
+                X, flat = flat_cloud(rv, npts, d)
             seed = int(rng.integers(0, 1000)); nd = 48 if not big else 1000
             vec = bool(rng.integers(2)); ctr = bool(rng.integers(2))
-            c.update(dim=d, n_points=npts, X=X if not big else "(%d x %d cloud, seed %d)" % (npts, d, k), seed=seed, n_dirs=nd, vectorized=vec, center=ctr)
+            R.count("width-cloud:%s" % ("flat:" + flat if flat else "full-dimensional"))
+            c.update(dim=d, n_points=npts, flat=flat, X=X if not big else "(%d x %d cloud, seed %d)" % (npts, d, k), seed=seed, n_dirs=nd, vectorized=vec, center=ctr)
             t = dyadic(rng, -8, 8, 2, size=d); s = float(dyadic(rng, 0.25, 8, 2))
             extra = dyadic(rng, -6, 6, 3, size=(int(rng.integers(1, 250 if big else 5)), d))
 
@@ -96,15 +128,30 @@ def run(R):
             X = dyadic(rng, 0.125, 4, 3, size=(npts, nf)); seed = int(rng.integers(1000))
             metric = str(rng.choice(["width", "volume"]))
             scales = dyadic(rng, 0.25, 8, 2, size=(npts, 1))
+            rv = R.rng(6, k); gflat = None; sup = None
+            if nf >= 3 and rv.integers(3) == 0:
+                # captures of fewer sources than receptors: the chromaticities lie in a flat of the simplex (on a face of it
+                # when the sources do not reach one receptor at all)
+                ns_ = int(rv.integers(2, nf))
+                A = dyadic(rv, 0, 2, 3, size=(ns_, nf)) + 0.125
+                gflat = "%d-sources-%d-receptors" % (ns_, nf)
+                if rv.integers(2):
+                    A[:, int(rv.integers(nf))] = 0.0; gflat += ":face"
+                W = dyadic(rv, 0, 1, 3, size=(npts, ns_)); W[:, 0] += 0.125
+                X = W @ A
+                if metric == "width":       # a full-dimensional superset (per direction the width cannot shrink)
+                    sup = np.vstack([X, dyadic(rv, 0.125, 4, 3, size=(nf + 2, nf))])
             sub = X[: max(nf + 1, npts // 2)]
-            c.update(nf=nf, X=X, metric=metric, seed=seed)
-            R.count("gamut:" + metric)
+            # volume is measured within the affine span: the subset/superset comparison needs equal affine rank
+            same_rank = metric == "width" or chroma_rank(sub) == chroma_rank(X)
+            c.update(nf=nf, X=X, metric=metric, seed=seed, flat=gflat)
+            R.count("gamut:" + metric); R.count("gamut-cloud:%s" % ("flat:" + gflat if gflat else "full-dimensional"))
 
             def impl():
                 g = lambda Y, **kw: dreye.compute_gamut(Y, metric=metric, seed=seed, **kw)  # noqa: E731
-                return g(X), g(X * scales), g(X, relative_to=X), g(sub, relative_to=X)
+                return g(X), g(X * scales), g(X, relative_to=X), g(sub, relative_to=X), (g(X, relative_to=sup) if sup is not None else 0.0)
             st, out = call(impl)
-            jobs.append((c, st, out, {}))
+            jobs.append((c, st, out, dict(same_rank=same_rank)))
         else:
             m = int(rng.integers(2, 9))
             P = dyadic(rng, 0, 4, 3, size=m); Q = dyadic(rng, 0, 4, 3, size=m)
@@ -162,13 +209,15 @@ def run(R):
             if abs(v - ex) > 1e-9 * (abs(ex) + 1.0):
                 R.failB(dict(c, impl=v), "volume %r, closed form %r (%s)" % (v, ex, c["family"]), sig + ":" + c["family"])
         elif what == "gamut":
-            g, gs, gself, gsub = [float(v) for v in out]
+            g, gs, gself, gsub, gsup = [float(v) for v in out]
             if abs(gs - g) > 1e-9 * (abs(g) + 1):
                 R.failB(dict(c, impl=[g, gs]), "gamut metric changed when rows were rescaled in intensity: %r -> %r" % (g, gs), sig + ":intensity-scale")
             if g != 0 and abs(gself - 1.0) > 1e-12:
                 R.failB(dict(c, impl=gself), "gamut relative to itself is %r" % gself, sig + ":self")
-            if gsub > 1.0 + 1e-9:
+            if X_["same_rank"] and gsub > 1.0 + 1e-9:
                 R.failB(dict(c, impl=gsub), "gamut of a subset relative to its superset is %r > 1" % gsub, sig + ":superset")
+            if gsup > 1.0 + 1e-9:
+                R.failB(dict(c, impl=gsup), "gamut of a flat cloud relative to a full-dimensional superset is %r > 1" % gsup, sig + ":superset")
         else:
             j, jr, ja, sim = [float(v) for v in out]
             m = f_of_bits(R.driver.get("j%d" % k).tok())
@@ -194,14 +243,21 @@ def run(R):
         X = polygon(rng, int(rng.integers(3, 10)))
         hull_per = float(np.sum(np.linalg.norm(X - np.roll(X, -1, axis=0), axis=1)))
         nd = 20000
-        c = dict(k=k, what="width_geometric", X=X, n_dirs=nd)
-        R.count("what:width_geometric")
+        rv = R.rng(7, k); de = int(rv.choice([2, 2, 3, 3, 4])); factor = planar_mean_width_factor(de)
+        ni = int(rv.integers(0, 6))
+        if ni:       # interior points do not change the hull
+            Wc = rv.dirichlet(np.ones(len(X)), size=ni)
+            X = np.vstack([X, Wc @ X])[rv.permutation(len(X) + ni)]
+        if de > 2:   # the same polygon embedded in 3 or 4 dimensions (a flat cloud)
+            X = np.c_[X, np.zeros((len(X), de - 2))] @ rot_cayley(rv, de).T + dyadic(rv, -2, 2, 2, size=de)
+        c = dict(k=k, what="width_geometric", X=X, n_dirs=nd, embedded_in=de, interior_points=ni)
+        R.count("what:width_geometric"); R.count("width_geometric:polygon-in-%dD" % de)
         st, w = call(dreye.compute_mean_width, X, n=nd, vectorized=True, seed=int(k))
         R.case(c, (k,))
         if st != "ok":
             R.failB(dict(c, impl_error=w), "raised %s" % w, "C18:width_geometric:raises:" + st); continue
-        if abs(float(w) - hull_per / np.pi) > 5 * hull_per / np.sqrt(nd):
-            R.failB(dict(c, impl=float(w)), "mean width %r of a convex polygon, perimeter/pi = %r" % (float(w), hull_per / np.pi), "C18:width_geometric:cauchy")
+        if abs(float(w) - hull_per * factor) > 5 * hull_per / np.sqrt(nd):
+            R.failB(dict(c, impl=float(w)), "mean width %r of a convex polygon in %d dimensions, closed form (perimeter/pi in the plane, perimeter/4 in space) = %r" % (float(w), de, hull_per * factor), "C18:width_geometric:cauchy")
     # estimator: fractional gamut in absolute capture lies in (0, 1]
     for k in range(n + 100, n + 100 + (6 if R.tier == "quick" else 60)):
         if not R.want(k):
@@ -210,8 +266,14 @@ def run(R):
         nf = int(rng.integers(2, 5)); ns = int(rng.integers(nf, nf + 3)); nd_ = int(rng.integers(ns + 2, ns + 8))
         filt = dyadic(rng, 0, 1, 3, size=(nf, nd_)) + 0.125; src = dyadic(rng, 0, 1, 3, size=(ns, nd_)) + 0.125
         metric = str(rng.choice(["width", "volume"]))
+        rv = R.rng(8, k)
+        if nf >= 3 and rv.integers(3) == 0:
+            # fewer sources than receptors: the system's chromaticities are a flat cloud inside the simplex; the mean width is
+            # still at most that of the perfect system (volumes of different affine rank are not comparable)
+            ns = int(rv.integers(2, nf)); metric = "width"
+            src = dyadic(rv, 0, 1, 3, size=(ns, nd_)) + 0.125
         c = dict(k=k, what="estimator_gamut", filters=filt, sources=src, metric=metric)
-        R.count("what:estimator_gamut")
+        R.count("what:estimator_gamut"); R.count("estimator_gamut:%s" % ("fewer-sources-than-receptors" if ns < nf else "sources>=receptors"))
         st, g = call(lambda: dreye.ReceptorEstimator(filt, domain=1.0, sources=src, ub=np.ones(ns)).compute_gamut(metric=metric, seed=1, relative=False))
         R.case(c, (k,))
         if st != "ok":
